@@ -19,7 +19,7 @@ def parse_case(line):
 
 def exists_assignment(n, rows):
     # independent of the Coq model: plain enumeration of injective assignments (small cases), augmenting paths (large ones)
-    if n > 8:
+    if n > 5:
         owner = {}
 
         def place(p, seen):
@@ -31,6 +31,10 @@ def exists_assignment(n, rows):
                         return True
             return False
         return all(place(p, set()) for p in range(len(rows)))
+    return exists_by_enumeration(n, rows)
+
+
+def exists_by_enumeration(n, rows):
     for f in itertools.permutations(range(n), len(rows)):
         if all(rows[p][e] for p, e in enumerate(f)):
             return True
@@ -42,9 +46,17 @@ def expected_pass(n, rest, rows):
     return (k <= n if rest else k == n) and exists_assignment(n, rows)
 
 
+_ORACLE_CALLS = [0]
+
+
 def oracle(line, impl):
     n, rest, rows = parse_case(line)
     want = expected_pass(n, rest, rows)
+    _ORACLE_CALLS[0] += 1
+    if 5 < n <= 8 and len(rows) <= n and _ORACLE_CALLS[0] % 40 == 0:
+        # the two oracles (augmenting paths, plain enumeration) checked against each other on a sample of the mid-size cases
+        if exists_assignment(n, rows) != exists_by_enumeration(n, rows):
+            raise vlib.CheckError("the augmenting-path oracle and plain enumeration disagree on %s" % line)
     got = impl.startswith("pass")
     if impl.startswith("MULTI"):
         return "set_match pushed more than one entry"
@@ -80,6 +92,31 @@ def gen_cases(tier, seed):
             for p, e in enumerate(perm):
                 rows[p][e] = True
         cases.append(line_of(n, rng.random() < 0.5, rows))
+    # interval families: the elements are a shuffled 0..n-1, every pattern an interval of values (what `#(0..=3, 1..=2, 4..=5, 4..=5, ..)`
+    # is), with repeated and nested intervals, as many patterns as elements: the structure in which a search that orders its patterns
+    # dynamically, memoises dead ends or prunes by counting goes wrong while random matrices of the same size almost never do.
+    # Half of them have an assignment by construction (interval i is grown around the value of a hidden permutation)
+    for _ in range(30000 if tier == "quick" else 400000):
+        n = rng.choice([5, 6, 6, 7, 7, 8, 9])
+        elems = list(range(n))
+        rng.shuffle(elems)
+        k = n if rng.random() < 0.8 else n - 1
+        ivs = []
+        hidden = rng.sample(range(n), n)
+        planted = rng.random() < 0.6
+        for p in range(k):
+            if planted:
+                lo = hidden[p] - rng.choice([0, 0, 1, 1, 2, 3])
+                hi = hidden[p] + rng.choice([0, 0, 1, 1, 2, 3])
+            else:
+                lo = rng.randrange(n)
+                hi = lo + rng.choice([0, 1, 1, 2, 2, 3])
+            ivs.append((lo, hi))
+        if rng.random() < 0.5 and k >= 2:
+            ivs[rng.randrange(k)] = ivs[rng.randrange(k)]                 # two identical patterns
+        rng.shuffle(ivs)
+        rows = [[lo <= e <= hi for e in elems] for lo, hi in ivs]
+        cases.append(line_of(n, k < n, rows))
     # large collections, few patterns, sparse rows: the sizes at which a machine word, a small-vector or an index type of the
     # bookkeeping runs out (around 8, 16, 32, 64, 128, 256 elements), with the few matching elements placed so that they
     # coincide modulo those sizes
@@ -131,7 +168,7 @@ def run(res):
         return fallback(res, out)
     cases, exhaustive = gen_cases(res.tier, res.seed)
     impl = vlib.run_harness("rt", cases)
-    model = vlib.run_model(cases)
+    model = vlib.run_model_sharded(cases)      # set_match commands are independent of each other
     res.obligations.append("correspondence:set_match(verdict, pushed entry, order of predicate calls)")
 
     def describe(c):
